@@ -488,3 +488,47 @@ pub fn diff_in_place<D: Decl>(shape: ShapeId, fmt: Format, reader: &SimReader, r
     let v = InPlaceVisitor::<D> { shape, fmt, reader, init, resubmit };
     <D::Shapes as shapes::ShapeSet>::dispatch::<D, _>(shape, v)
 }
+
+
+// ------------------------------------------------------------------------------------ one side only
+
+struct OneSideVisitor<'b> {
+    fmt: Format,
+    bytes: &'b [u8],
+    twin: bool,
+}
+
+impl<'b, D: Decl> ShapeVisitor<D> for OneSideVisitor<'b> {
+    type Out = &'static str;
+    fn visit<A, B>(
+        self,
+        _build_a: fn(Vec<D>, &Aux) -> A,
+        _build_b: fn(Vec<D::Twin>, &Aux) -> B,
+        _split_a: fn(A) -> (Vec<D>, String),
+        _split_b: fn(B) -> (Vec<D::Twin>, String),
+        _fallthrough: Option<Fallthrough>,
+    ) -> &'static str
+    where
+        A: Serialize + DeserializeOwned,
+        B: Serialize + DeserializeOwned,
+    {
+        let ok = if self.twin {
+            codec::de_bytes::<B>(self.fmt, Api::Slice, self.bytes).is_ok()
+        } else {
+            codec::de_bytes::<A>(self.fmt, Api::Slice, self.bytes).is_ok()
+        };
+        if ok {
+            "ok"
+        } else {
+            "err"
+        }
+    }
+}
+
+/// Deserialize `Shape<D>` (or `Shape<Twin>`) from a slice and say whether it returned Ok or Err.
+/// Used in a child process for documents that may make the callee ABORT (allocation failure),
+/// which cannot be observed from inside the process.
+pub fn read_one_side<D: Decl>(shape: ShapeId, fmt: Format, bytes: &[u8], twin: bool) -> &'static str {
+    let v = OneSideVisitor { fmt, bytes, twin };
+    <D::Shapes as shapes::ShapeSet>::dispatch::<D, _>(shape, v)
+}
